@@ -848,6 +848,16 @@ func init() {
 			return
 		}
 		procs := []int{2, 4, 16}
+		// Before anything else has used the interpreter in this process: concurrent
+		// executions as the very first ones (one such history per child process), so
+		// that whatever the package sets up lazily on first use is set up under
+		// contention.
+		c.Phase("engine-cold-start")
+		for i := uint64(0); i < uint64(max(c.NShards, 1)); i++ {
+			if c.Case(i) {
+				hist(c, &c18Hist{N: 1000 + 2*i + 1, Goroutines: 16, OpsEach: 12, Procs: 16, Mode: "engine"})
+			}
+		}
 		c.Phase("feequote-histories")
 		N := uint64(240)
 		if c.Thorough {
